@@ -14,7 +14,8 @@ import AiocoapModel.Blockwise.Overlap
      opts    `_` or `num=hex;num=hex…` (all other options in option_list order)
      payload hex, `-` (empty) or `r<len>.<a>.<b>` (byte i = (a + b·i) mod 256)
      h*      what the handler answers if it is invoked at this step; hcode `!<code>` = the
-             handler raises an exception that is rendered with that code (hopts/hpayload unused)
+             handler raises an exception that is rendered with that code (hopts/hpayload unused);
+             hcode `?` = the handler returns something that is not a message (`None`, a str, an int)
      opath   `message._original_request_path` of the request as the resource gets it: `-` if it has
              none, else `p` + the path components in hex joined by `.` (`-` = empty component, `p`
              alone = the empty path)
@@ -100,16 +101,19 @@ def showEntry (d : DStep) : String :=
 def parseBool (s : String) : Option Bool :=
   if s = "1" then some true else if s = "0" then some false else none
 
-/-- `<code>` (the handler returns a message) or `!<code>` (it raises) -/
-def parseHCode (s : String) : Option (Bool × Nat) :=
+/-- `<code>` (the handler returns a message), `!<code>` (it raises) or `?` (it returns something that
+is not a message: inner `none`) -/
+def parseHCode (s : String) : Option (Option (Bool × Nat)) :=
   match s.toList with
-  | '!' :: rest => (String.ofList rest).toNat?.map (fun c => (true, c))
-  | _ => s.toNat?.map (fun c => (false, c))
+  | ['?'] => some none
+  | '!' :: rest => (String.ofList rest).toNat?.map (fun c => some (true, c))
+  | _ => s.toNat?.map (fun c => some (false, c))
 
 /-- the plain options of what the handler returns (none when it raises) -/
 def outcomeOpts : Outcome → List Opt
   | .ok r => r.opts
   | .error _ => []
+  | .junk => []
 
 /-- `-` (no `_original_request_path`), or `p<hex>.<hex>…` -/
 def parseOPath (s : String) : Option (Option (List Bytes)) :=
@@ -148,20 +152,25 @@ def parseStep (s : String) : Option DTok :=
     let req : Msg := { remote := { key := rkey, maxPayload := mps, maxSzx := mszx }, code := code,
                        opts := opts, block1 := b1, block2 := b2, payload := payload, origPath := opath }
     let resp : Outcome :=
-      if hcode.1 then .error hcode.2
-      else .ok { code := hcode.2, opts := hopts, block1 := none, block2 := none, payload := hpayload }
+      match hcode with
+      | none => .junk
+      | some (true, c) => .error c
+      | some (false, c) => .ok { code := c, opts := hopts, block1 := none, block2 := none, payload := hpayload }
     pure (.req { res := res, dt := dt, obs := obs, hold := hold,
                  inp := fun now => { now := now, assemble := asm, req := req, render := fun _ => resp } })
   | _ => none
 
 /-- inputs the model does not claim: resource index ≥ 4, exponent of the remote > 7, a request
 code that is not a request, a handler answering with a request code or with a block option
-number among its plain options, plain options 23/27 in the request -/
+number among its plain options, plain options 23/27 in the request, a non-message returned by a
+resource without block-wise assembly -/
 def stepInModel : DTok → Bool
   | .fin res _ _ => res < 4
   | .req d =>
     let i := d.inp 0
     d.res < 4 && i.req.remote.maxSzx ≤ 7 && isRequestCode i.req.code &&
+    -- a resource that does its own block handling puts what `render` returns on the pipe as it is
+    !(i.render i.req == .junk && !i.assemble) &&
     !isRequestCode (i.render i.req).code &&
     i.req.opts.all (fun o => o.1 != 23 && o.1 != 27) &&
     (outcomeOpts (i.render i.req)).all (fun o => o.1 != 23 && o.1 != 27)
